@@ -119,6 +119,7 @@ def make_lonlat(oid, order, lon_hi=180, centres=None, tiers=("quick", "thorough"
         lon, lat, flon, flat = inp
         symnp.SQRT_MODE[0] = "uf"
         sc.NL_UF[0] = True
+        sc.MOD_MODE[0] = "witness"          # the functional form of the longitude wrap makes these queries 40x slower (and erratic)
         try:
             g = build(lon, lat, flon, flat, C.clone_grid_from)
             for name in ORDERS[order]:
